@@ -43,8 +43,14 @@ func genWop(r *fw.Rng, allowFail bool) wop {
 		o.u = r.U64()
 	case "bytes", "string":
 		o.b = r.Bytes(r.Range(0, 20))
+		if r.Chance(1, 16) {
+			o.b = r.Bytes(r.Pick(63, 64, 65, 255, 256, 257, 1000, 4095, 4096, 4097))
+		}
 	case "cstring":
 		o.b = nonNul(r, r.Range(0, 20))
+		if r.Chance(1, 16) { // C-strings have no width limit of their own
+			o.b = nonNul(r, r.Pick(63, 64, 65, 254, 255, 256, 257, 300, 1000, 4095, 4096, 4097, 5000))
+		}
 	case "fixed":
 		o.n = r.Range(0, 24)
 		if r.Chance(1, 6) {
@@ -237,6 +243,29 @@ func c20Reader(c *fw.Case) {
 	}
 	in := append([]byte(nil), img[:cut]...)
 	rd := packet.NewPacketReader(in)
+	// every value handed out stays what it was while the reader goes on: (description, live value, expected)
+	type heldVal struct {
+		what string
+		b    []byte
+		s    *string
+		want string
+	}
+	var held []heldVal
+	recheck := func(when string) bool {
+		for _, h := range held {
+			got := ""
+			if h.s != nil {
+				got = *h.s
+			} else {
+				got = string(h.b)
+			}
+			if got != h.want {
+				c.Failf("reader-result-changed-by-later-read", "%s: the value returned by %s read %s when it was returned and reads %s %s", "reader", h.what, hx([]byte(h.want)), hx([]byte(got)), when)
+				return false
+			}
+		}
+		return true
+	}
 	pos := 0
 	failed := false
 	firstErr := ""
@@ -312,6 +341,20 @@ func c20Reader(c *fw.Case) {
 				c.Failf("reader-not-inverse/"+o.kind, "%s: read back u=%d b=%s s=%q", ctx(), gu, hx(gb), gs)
 				return
 			}
+			switch o.kind {
+			case "bytes":
+				if trimMode && len(gb) > 0 {
+					held = append(held, heldVal{what: fmt.Sprintf("ReadNBytes(%d) (read %d)", len(o.b), i), b: gb, want: string(gb)})
+				}
+			case "cstring", "fixed":
+				if len(gs) > 0 {
+					g := gs
+					held = append(held, heldVal{what: fmt.Sprintf("%s read %d", o.kind, i), s: &g, want: string(append([]byte(nil), gs...))})
+				}
+			}
+			if len(held) > 0 && i%8 == 7 && !recheck(fmt.Sprintf("after read %d", i)) {
+				return
+			}
 			pos += len(add)
 			continue
 		}
@@ -347,6 +390,9 @@ func c20Reader(c *fw.Case) {
 			return
 		}
 	}
+	if !recheck("after the last read") {
+		return
+	}
 	if !failed && rd.Remaining() != cut-pos {
 		c.Failf("reader-remaining", "Remaining()=%d, model %d", rd.Remaining(), cut-pos)
 	}
@@ -357,7 +403,7 @@ func init() {
 	fw.Register(&fw.Prop{
 		ID:        "C20",
 		Technique: "runtime monitor: shadow model of packet.Writer/Reader (expected octet string, first-error state) compared after every primitive operation, failure injected at every position",
-		Rule: "op sequences of length 0..200 over all eight write primitives with arbitrary arguments; an oversize fixed string (the only failing write) injected at a PRNG-chosen position and again later; the mirrored read sequence over the full image and over every truncation class; " +
+		Rule: "op sequences of length 0..200 over all eight write primitives with arbitrary arguments; an oversize fixed string (the only failing write) injected at a PRNG-chosen position and again later; the mirrored read sequence over the full image and over every truncation class; C-strings and byte runs up to 5000 octets (widths around 64, 256 and 4096); every value a read returned is compared again after later reads (a result must not change under the caller); " +
 			"distinct_nontrivial = distinct (side, length bucket, failure injected / truncated) classes",
 		Assumptions: []string{"a write primitive can only fail through WriteFixedLenString with a value longer than its width; a read fails when its value is not completely present"},
 		Stages: []*fw.Stage{
